@@ -118,11 +118,21 @@ func ruleOffsetWriters(c *Ctx, r *Rule) {
 			ok = false
 			var walk func(v ssa.Value, d int)
 			walk = func(v ssa.Value, d int) {
-				if d > 6 || v == nil {
+				if d > 9 || v == nil {
 					return
 				}
 				if isLoadOfField(v, fileInPkg, "jobProvider", "loadedOffsets") {
 					ok = true
+				}
+				if al, isAl := v.(*ssa.Alloc); isAl {
+					// a variable cell (captured by a function literal): what was stored into it
+					if refs := al.Referrers(); refs != nil {
+						for _, rf := range *refs {
+							if st, isSt := rf.(*ssa.Store); isSt && st.Addr == ssa.Value(al) {
+								walk(st.Val, d+1)
+							}
+						}
+					}
 				}
 				if in, isIn := v.(ssa.Instruction); isIn {
 					for _, op := range in.Operands(nil) {
@@ -163,6 +173,14 @@ func (c *Ctx) heldOrUnpublished(in ssa.Instruction, ref lockRef, depth int) (boo
 	}
 	fn := in.Parent()
 	if _, ok := c.flowMust(fn).at(in)[ref.key()]; ok {
+		return true, ""
+	}
+	if sites, refs, ok := c.closureLockSites(in, ref); ok && depth > 0 {
+		for i, s := range sites {
+			if ok2, w := c.heldOrUnpublished(s, refs[i], depth-1); !ok2 {
+				return false, w
+			}
+		}
 		return true, ""
 	}
 	pi := paramIndex(fn, ref.root)
@@ -461,11 +479,34 @@ func ruleResume(c *Ctx, r *Rule) {
 	found := false
 	for _, cs := range c.sitesOf(seek) {
 		arg := cs.Common().Args[1]
+		fn := cs.Parent()
 		phi, ok := arg.(*ssa.Phi)
+		if !ok {
+			// the minimum may be computed by a helper / function literal: follow its returned value
+			if call, isCall := arg.(*ssa.Call); isCall {
+				var callee *ssa.Function
+				if f := call.Call.StaticCallee(); f != nil && c.inModule(f) {
+					callee = f
+				} else if mc, isMC := call.Call.Value.(*ssa.MakeClosure); isMC {
+					callee, _ = mc.Fn.(*ssa.Function)
+				}
+				if callee != nil && callee.Blocks != nil {
+					for _, ret := range returnsOf(callee) {
+						if rp, isPhi := retResults(ret)[0].(*ssa.Phi); isPhi {
+							// only a running-minimum helper (initialised with MaxInt64) is a candidate
+							for _, leaf := range phiLeaves(rp) {
+								if k, isK := constInt(leaf); isK && k == 1<<63-1 {
+									phi, ok, fn = rp, true, callee
+								}
+							}
+						}
+					}
+				}
+			}
+		}
 		if !ok {
 			continue
 		}
-		fn := cs.Parent()
 		// transitive φ closure
 		in := map[ssa.Value]bool{}
 		var coll func(v ssa.Value, d int)
